@@ -109,6 +109,8 @@ pub struct SimState {
   pub first_inscription_height: Option<u32>,
   /// every mutation applied to the simulated node, in order
   pub world_log: Vec<NodeEvent>,
+  /// the explorer router handed over by `Server::run`
+  pub router: Option<axum::Router>,
   sched_rng: Rng,
 }
 
@@ -202,6 +204,7 @@ impl Sim {
         harness_error: None,
         first_inscription_height: config.first_inscription_height,
         world_log: Vec::new(),
+        router: None,
         sched_rng: Rng::new(0),
       }),
       cv: Condvar::new(),
@@ -755,6 +758,11 @@ impl ord::verif::Hooks for SimHooks {
   }
 
   fn skip_index_thread(&self) -> bool {
+    true
+  }
+
+  fn router(&self, router: &axum::Router) -> bool {
+    self.0.lock().router = Some(router.clone());
     true
   }
 
